@@ -18,28 +18,35 @@ fn main() {
     let mode = std::env::args().nth(1).unwrap_or_default();
     match mode.as_str() {
         "proj" => {
-            let mut slw = SliceProbe::new();
-            let t = run_component_cases(|input, dev| {
-                let m = bytes_of(&input["m"]);
-                let starts = usizes_of(&input["starts"]);
-                let ph = predicted_hangs(dev, starts.len());
-                old_projection_twice(&m, &starts, &mut slw, &ph)
-            });
-            print_summary(&t, json!({"slice_hangs_observed": slw.hangs, "slice_predicted_hangs_not_executed": slw.skipped}));
-            // abandoned slice workers spin forever
+            let mut wd = Watchdog::new(make_proj_case, 30);
+            let t = run_component_cases(|input, dev| wd.call(input, dev));
+            print_summary(&t, json!({"slice_hangs_observed": SLICE_HANGS.load(std::sync::atomic::Ordering::Relaxed),
+                                     "slice_predicted_hangs_not_executed": SLICE_SKIPPED.load(std::sync::atomic::Ordering::Relaxed),
+                                     "battery_hangs_observed": wd.hangs}));
+            // abandoned workers spin forever
             std::process::exit(0);
         }
         "orders" => {
-            let t = run_component_cases(|input, _dev| wire_cursor::run_ops(input));
-            print_summary(&t, json!({}));
+            fn mk() -> CaseFn {
+                Box::new(|input, _dev| wire_cursor::run_ops(input))
+            }
+            let mut wd = Watchdog::new(mk, 20);
+            let t = run_component_cases(|input, dev| wd.call(input, dev));
+            print_summary(&t, json!({"battery_hangs_observed": wd.hangs}));
+            std::process::exit(0);
         }
         "codec" => {
-            let t = run_component_cases(|input, _dev| {
-                let m = bytes_of(&input["m"]);
-                let starts = usizes_of(&input["starts"]);
-                wire_new::codec_view(&m, &starts)
-            });
-            print_summary(&t, json!({}));
+            fn mk() -> CaseFn {
+                Box::new(|input, _dev| {
+                    let m = bytes_of(&input["m"]);
+                    let starts = usizes_of(&input["starts"]);
+                    wire_new::codec_view(&m, &starts)
+                })
+            }
+            let mut wd = Watchdog::new(mk, 20);
+            let t = run_component_cases(|input, dev| wd.call(input, dev));
+            print_summary(&t, json!({"battery_hangs_observed": wd.hangs}));
+            std::process::exit(0);
         }
         _ => {
             eprintln!("usage: replay_wire proj|orders|codec");
